@@ -354,7 +354,7 @@ Proof. split; reflexivity. Qed.
 Lemma frag_worker_one_reply :
   worker_recvs_per_iteration = 1 /\
   Forall (fun k => In (k, 1) worker_replies) [KStep; KReset; KGetAttr; KSetAttr; KEnvMethod; KIsWrapped; KHasAttr; KRender; KGetSpaces].
-Proof. split; [reflexivity|]. repeat constructor; cbn; tauto. Qed.
+Proof. split; [reflexivity|]. repeat (apply Forall_cons; [cbn; auto 15|]). apply Forall_nil. Qed.
 
 (* the program of a regenerated skeleton over all workers has the send-all / receive-all shape *)
 Lemma skel_prog_all : forall {C} n targets (payload : cmdkind -> nat -> C) k,
